@@ -29,9 +29,11 @@ What is kept exactly as the code has it:
   `float64(uint64)` (round to nearest even above 2^53), an up-down as `float64(int64)`.
 
 Parameters / abstractions (see `checks/C33.py`): metric names are an arbitrary type `κ` with
-decidable equality (the oracle instantiates `String`); gauge and store payloads are `Int` — the
-code never computes with them (it stores and returns the float's bits), and the harness only
-generates integer-valued floats of magnitude ≤ 2^53, which `float64` represents exactly; the
+decidable equality (the oracle instantiates `String`); gauge and store payloads are opaque — the
+code never computes with them, it stores the float's bits and returns them verbatim — so the model
+carries them as `Int` tokens: the oracle encodes every float64 the harness passes (integers,
+fractions, subnormals, -0, ±MaxFloat64, NaN, ±Inf) injectively into `Int` (`Oracle/Metrics.lean`,
+`parseTok`) and compares tokens, never floats; the
 up-down counter is an unbounded `Int` (`atomic.Int64` cannot wrap in fewer than 2^63 calls, each
 call changing it by one).
 -/
